@@ -35,6 +35,8 @@ def cfg_specs(tier):
         dict(label="dfs120", gen="gen_dfs", kw={}, n=120, seed=5),
         # a filter that is not idempotent: data served from the cache must not be filtered a second time
         dict(label="dfs9pct", gen="gen_dfs", kw={}, n=9, seed=12, lite=True, filters=[("cut_percentile_shortest", (40.0,), {})]),
+        # filters of its own AND >= 100 mazes left: saved in the minimal format, whose stored config carries one more filter entry
+        dict(label="dfs150f", gen="gen_dfs", kw={}, n=150, seed=42, lite=True, filters=[("path_length", (3,), {})]),
     ]
     if tier != "quick":
         S.append(dict(label="dfs120f", gen="gen_dfs_percolation", kw=dict(p=0.2), n=120, seed=8, filters=[("path_length", (3,), {})]))
